@@ -137,8 +137,8 @@ def _scan_trusted(text, origin):
                 if code[u_i].text == 'fn':
                     out.append('%s: uninterpreted spec fn %s' % (origin, code[u_i + 1].text))
                     break
-        elif t.kind == 'ident' and t.text == 'axiom' and False:
-            pass
+        elif t.kind == 'ident' and t.text == 'axiom' and i + 2 < len(code) and code[i + 1].text == 'fn':
+            out.append('%s: axiom fn %s' % (origin, code[i + 2].text))
     return out
 
 
@@ -185,7 +185,7 @@ def generate(unit, repo, vacuity=False):
         t = _privatise(t)
         spec_text += '// ---- spec: %s\n' % p + t + '\n'
         for c in _scan_trusted(t, p):
-            if 'uninterpreted spec fn' in c:
+            if 'uninterpreted spec fn' in c or ': axiom fn ' in c:
                 g.trusted.append(c)
             else:
                 g.cheats_outside_prelude.append(c)
